@@ -324,6 +324,34 @@ void enum_trees(const Alphabet& sigma, int depth, std::vector<Tree>& out, size_t
 	}
 	out = prev;
 }
+bool sample_tree(const TA& a, uint64_t seed, int max_depth, Tree& out) {
+	// minimal derivation height per state
+	std::map<long, int> h; bool ch = true;
+	while (ch) {
+		ch = false;
+		for (const Rule& r : a.rules) {
+			int m = 0; bool ok = true; for (long c : r.ch) { auto it = h.find(c); if (it == h.end()) { ok = false; break; } if (it->second + 1 > m) m = it->second + 1; }
+			if (!ok) continue;
+			auto it = h.find(r.parent); if (it == h.end() || it->second > m) { h[r.parent] = m; ch = true; }
+		}
+	}
+	std::vector<long> roots; for (long f : a.finals) { auto it = h.find(f); if (it != h.end() && it->second <= max_depth) roots.push_back(f); }
+	if (roots.empty()) return false;
+	uint64_t st = seed * 0x9e3779b97f4a7c15ull + 12345;
+	auto rnd = [&st](size_t n) { st ^= st << 13; st ^= st >> 7; st ^= st << 17; return n ? size_t(st % n) : size_t(0); };
+	std::function<void(long, int, Tree&)> expand = [&](long q, int budget, Tree& t) {
+		std::vector<const Rule*> cand;
+		for (const Rule& r : a.rules) { if (r.parent != q) continue; bool ok = true; for (long c : r.ch) { auto it = h.find(c); if (it == h.end() || it->second + 1 > budget) { ok = false; break; } } if (ok) cand.push_back(&r); }
+		const Rule* r = cand[rnd(cand.size())];      // non-empty: h[q] <= budget
+		t.sym = r->sym; t.ch.resize(r->ch.size());
+		for (size_t i = 0; i < r->ch.size(); ++i) expand(r->ch[i], budget - 1, t.ch[i]);
+	};
+	long root = roots[rnd(roots.size())];
+	int budget = h[root] + int(rnd(size_t(max_depth - h[root] + 1)));
+	expand(root, budget, out);
+	return true;
+}
+
 std::string tree_str(const Tree& t) {
 	std::string s = t.sym; if (!t.ch.empty()) { s += "("; for (size_t i = 0; i < t.ch.size(); ++i) s += (i ? "," : "") + tree_str(t.ch[i]); s += ")"; } return s;
 }
